@@ -124,11 +124,16 @@ static void part_gauss(const std::vector<unsigned>& ns, bool mixtures) {
                     if (b == bt) put_gauss(dat, n, b, *probe, gs);
                     else put_gauss(dat, n, b, *probe, {G{cq + (other ? 1.0 : -0.7) * scale, (0.9 + 0.2 * b) * scale, cp + (other ? -1.1 : 0.4) * scale, (1.0 + 0.1 * other) * scale, 1.0 + other}});
                 }
+                // variant A: freshly renormalised; variant B (odd cases): NOT renormalised, every bunch holding a charge that differs from
+                // its share (as between two renormalisations of a run) - the moments of a projection do not depend on its amplitude
+                const bool raw = (im + is + bt) % 2 == 1;
+                if (raw) for (unsigned b = 0; b < nb; b++) { const float amp = fill[b] * (b % 2 ? 1.3f : 0.85f) / 6.2831853f; for (size_t i = 0; i < (size_t)n * n; i++) dat[(size_t)b * n * n + i] *= amp; }
                 auto ps = mkps(E.qmin, E.qmax, E.pmin, E.pmax, fill, dat.data());
-                renorm(*ps);
+                if (raw) { ps->updateXProjection(); ps->updateYProjection(); ps->integrate(); ps->variance(0); ps->variance(1); }
+                else renorm(*ps);
                 res[other][0] = ps->getMoment(0, 0)[bt]; res[other][1] = ps->getBunchLength()[bt];
                 res[other][2] = ps->getMoment(1, 0)[bt]; res[other][3] = ps->getEnergySpread()[bt];
-                if (other == 0 && !mix) {
+                if (other == 0 && !mix && !raw) {
                     // zeroth moment row by row: each projection of a Gaussian is its marginal, scaled to the bunch's share
                     for (int ax = 0; ax < 2; ax++) {
                         const double m = ax ? g.mp : g.mq, sg = ax ? g.sp : g.sq; double worst = 0, peak = fill[bt] / (std::sqrt(2 * M_PI) * sg);
@@ -206,8 +211,8 @@ int main(int argc, char** argv) {
     R.rule = "one evaluation = one real PhaseSpace built from enumerated data, renormalised and measured; distinct = FNV of case + resulting data/moments; trivial = single bunch dense data";
     R.sample_every = 5000;
     const bool T = R.thorough();
-    part_norm(T ? std::vector<unsigned>{8, 16, 17} : std::vector<unsigned>{8, 9});
-    part_gauss(T ? std::vector<unsigned>{32, 33, 64} : std::vector<unsigned>{32, 48}, T);
-    part_copy(T ? std::vector<unsigned>{8, 16, 17, 32} : std::vector<unsigned>{8, 16});
+    part_norm(T ? std::vector<unsigned>{8, 9, 16, 17, 24} : std::vector<unsigned>{8, 9});
+    part_gauss(T ? std::vector<unsigned>{32, 33, 48, 64, 65, 96} : std::vector<unsigned>{32, 48}, T);
+    part_copy(T ? std::vector<unsigned>{8, 9, 16, 17, 32, 33} : std::vector<unsigned>{8, 16});
     return R.finish();
 }
